@@ -718,15 +718,27 @@ func ruleG41(r *Run) {
 				if !ok || Callee(info, c) != npm || len(c.Args) < 2 {
 					return true
 				}
-				builder, ok := ast.Unparen(c.Args[1]).(*ast.FuncLit)
-				if !ok {
+				var builderType *ast.FuncType
+				var builderBody *ast.BlockStmt
+				if bl, ok := ast.Unparen(c.Args[1]).(*ast.FuncLit); ok {
+					builderType, builderBody = bl.Type, bl.Body
+				} else if bf, ok := identObj(info, c.Args[1]).(*types.Func); ok {
+					if bd := p.Decl(bf); bd != nil && bd.Body != nil {
+						builderType, builderBody = bd.Type, bd.Body
+					}
+				}
+				if builderBody == nil {
 					// handed on from a parameter (newPluginManager itself): not a construction site
 					return true
 				}
+				builder := struct {
+					Type *ast.FuncType
+					Body *ast.BlockStmt
+				}{builderType, builderBody}
 				key := "wrapper built in " + p.DeclName(fd)
 				bps := paramsOf(info, builder.Type)
 				if len(bps) != 2 {
-					r.Undec(key, builder.Pos(), "the builder does not take (handler, next)")
+					r.Undec(key, builder.Body.Pos(), "the builder does not take (handler, next)")
 					return true
 				}
 				defs := localDefs(info, builder.Body)
@@ -779,7 +791,7 @@ func ruleG41(r *Run) {
 					return true
 				})
 				if wrap == nil || len(wrap.Body.List) == 0 {
-					r.Undec(key, builder.Pos(), "the literal the builder returns was not found")
+					r.Undec(key, builder.Body.Pos(), "the literal the builder returns was not found")
 					return true
 				}
 				wps := paramsOf(info, wrap.Type)
@@ -843,6 +855,12 @@ func ruleG41(r *Run) {
 
 func ruleG42(r *Run) {
 	p := r.P
+	total := 0
+	defer func() {
+		if total == 0 {
+			r.Ok("no in-place deletion inside an ascending loop in the repository", 0, "nothing to step back")
+		}
+	}()
 	for _, pkg := range p.Pkgs {
 		info := pkg.TypesInfo
 		for _, file := range pkg.Syntax {
@@ -879,13 +897,18 @@ func ruleG42(r *Run) {
 						return true
 					}
 					// the loop that counts iv upwards
-					var loop *ast.ForStmt
+					var loop ast.Stmt
+					var loopBody *ast.BlockStmt
 					for q := parents[as]; q != nil; q = parents[q] {
 						if fs, ok := q.(*ast.ForStmt); ok {
 							if inc, ok := fs.Post.(*ast.IncDecStmt); ok && inc.Tok == token.INC && identObj(info, inc.X) == iv {
-								loop = fs
+								loop, loopBody = fs, fs.Body
 								break
 							}
+						}
+						if rs, ok := q.(*ast.RangeStmt); ok && rs.Key != nil && identObj(info, rs.Key) == iv {
+							loop, loopBody = rs, rs.Body
+							break
 						}
 						if _, ok := q.(*ast.FuncLit); ok {
 							break
@@ -895,6 +918,7 @@ func ruleG42(r *Run) {
 						return true
 					}
 					n++
+					total++
 					key := fmt.Sprintf("in-place deletion from %s in %s #%d", types.ExprString(s1.X), p.DeclName(fd), n)
 					loopLabel := ""
 					if ls, ok := parents[loop].(*ast.LabeledStmt); ok {
@@ -964,7 +988,7 @@ func ruleG42(r *Run) {
 						if verdict != "" {
 							break
 						}
-						if par == nil || par == ast.Node(loop.Body) {
+						if par == nil || par == ast.Node(loopBody) {
 							verdict = "bad: the end of the loop body is reached"
 							break
 						}
